@@ -22,7 +22,8 @@ ID = 'C11'
 
 
 def spec(tick, unit, **kw):
-    d = {'tick': tick, 'unit': unit, 'side': 'long', 'enter': {'when': 'flat', 'legs': [[1, -1]]}, 'on_open': {'sl': 'all', 'tp': 'all', 'sl_d': 2, 'tp_d': 2}, 'cancel_entry': True}
+    d = {'tick': tick, 'unit': unit, 'side': 'long', 'enter': {'when': 'flat', 'legs': [[1, -1]]}, 'on_open': {'sl': 'all', 'tp': 'all', 'sl_d': 2, 'tp_d': 2}, 'cancel_entry': True,
+         'indicator': True}
     d.update(kw)
     return d
 
@@ -40,7 +41,7 @@ def sessions(emb):
     def var(**kw):
         c = copy.deepcopy(b)
         for k, v in kw.items():
-            if k in ('type', 'fee', 'leverage', 'mode', 'balance', 'exchange'):
+            if k in ('type', 'fee', 'leverage', 'mode', 'balance', 'exchange', 'warm_up_candles'):
                 c['cfg'][k] = v
             else:
                 c[k] = v
@@ -57,6 +58,8 @@ def sessions(emb):
         'tf-3m-data-15m': var(routes=[{'symbol': 'BTC-USDT', 'timeframe': '3m', 'spec': spec(tick, unit)}], data_routes=[['BTC-USDT', '15m']]),
         'fast': var(fast=True, routes=[{'symbol': 'BTC-USDT', 'timeframe': '3m', 'spec': spec(tick, unit)}]),
         'warmup': var(warmup={'BTC-USDT': S.make_candles([progs.SHAPES['DOJI']] * 15, rows[0][1], tick, t0=S.TS0 - 15 * 60000).tolist()}),
+        # the configured number of warm-up candles (what non-sequential indicators are allowed to look back on): 6, against 0 elsewhere
+        'warmup-config-6': var(warm_up_candles=6, warmup={'BTC-USDT': S.make_candles([progs.SHAPES['DOJI']] * 6, rows[0][1], tick, t0=S.TS0 - 6 * 60000).tolist()}),
         'short-program': var(routes=[{'symbol': 'BTC-USDT', 'timeframe': '1m', 'spec': spec(tick, unit, side='short', enter={'when': 'flat', 'legs': [[2, 1]]})}]),
         'two-routes': var(routes=[{'symbol': 'BTC-USDT', 'timeframe': '1m', 'spec': spec(tick, unit)}, {'symbol': 'ETH-USDT', 'timeframe': '1m', 'spec': spec(tick, unit, side='short', enter={'when': 'flat', 'legs': [[1, 1]]})}],
                           candles={'BTC-USDT': rows, 'ETH-USDT': rows}),
@@ -129,7 +132,7 @@ def dims(h, emb):
     out = set()
     for n in h[:-1]:
         e = ss[n]
-        for k in ('type', 'fee', 'leverage', 'mode', 'balance', 'exchange'):
+        for k in ('type', 'fee', 'leverage', 'mode', 'balance', 'exchange', 'warm_up_candles'):
             if e['cfg'].get(k) != p['cfg'].get(k):
                 out.add(k)
         if [(r['symbol'], r['timeframe']) for r in e['routes']] != [(r['symbol'], r['timeframe']) for r in p['routes']] or e.get('data_routes') != p.get('data_routes'):
